@@ -47,7 +47,7 @@ func lockOpOf(info *types.Info, call *ast.CallExpr) *lockOp {
 			owner = n.Obj().Name()
 		}
 	}
-	return &lockOp{lock: owner + "." + f.Name(), op: se.Sel.Name, field: f, recv: ms.X}
+	return &lockOp{lock: owner + "." + fieldCanon(f), op: se.Sel.Name, field: f, recv: ms.X}
 }
 
 // lockSet maps lock name -> mode ("R" or "W").
